@@ -10,7 +10,9 @@ Open Scope N_scope.
     exits in any order and clock advances: a build with batch n while k entries of the resource
     are in flight is admitted exactly when k + n <= T for every rule (so capacity freed by an
     exit is usable by the very next request); a rejection is an Isolation block naming a rule
-    whose bound is exceeded and carrying k. *)
+    whose bound is exceeded and carrying k.  Stated for the isolation family on its own: no flow rules are
+    loaded ([fun _ => []]) and the history consists of builds, exits and clock advances only ([no_extra]);
+    several hotspot rules together are C05_hotspot_exact_multi below. *)
 Theorem C05_isolation_exact : forall c base rules ops,
   geom_ok c -> iv (c_total c) <= base -> forallb no_extra ops = true ->
   ok_c05_iso rules base ops (run_typed (world0 c base (fun _ => []) rules) ops) = true.
